@@ -1,0 +1,109 @@
+//! Observation hooks for external runtime monitors (cargo feature `verif`, off by default).
+//!
+//! Nothing in here changes what the formatter produces. The hooks expose
+//! * a per-thread logical step counter with an optional limit (bounded-progress watchdog),
+//! * a per-thread event log that is only filled while recording is switched on,
+//! * a switch that makes the lexer use the portable identifier scanning routine.
+
+use std::cell::{Cell, RefCell};
+use std::sync::atomic::{AtomicBool, Ordering};
+
+/// Payload of the panic raised by [`step`] when the configured step limit is exceeded.
+pub const STEP_LIMIT_PANIC: &str = "pasfmt-verif: logical step limit exceeded";
+
+#[derive(Debug, Clone, PartialEq, Eq)]
+pub enum Event {
+    /// One conditional-compilation pass of the parser, with the number of tokens it visits.
+    ParserPass { tokens: usize },
+    /// The line wrapper gave up on a top-level logical line and left it (and its child
+    /// lines) as spaced. The token range covers the line and all of its descendants.
+    WrapFallback {
+        line_index: usize,
+        first_token: usize,
+        last_token: usize,
+        iteration_limit: bool,
+    },
+    /// A top-level line is wrapped a second time after a multi-line string was re-indented.
+    Reflow { line_index: usize },
+    /// A memoised child-line solution was reused while re-wrapping the given top-level line.
+    ChildCacheHitDuringReflow { parent_line_index: usize },
+}
+
+thread_local! {
+    static STEPS: Cell<u64> = const { Cell::new(0) };
+    static STEP_LIMIT: Cell<u64> = const { Cell::new(u64::MAX) };
+    static RECORDING: Cell<bool> = const { Cell::new(false) };
+    static IN_REFLOW: Cell<bool> = const { Cell::new(false) };
+    static EVENTS: RefCell<Vec<Event>> = const { RefCell::new(Vec::new()) };
+}
+
+static FORCE_SCALAR_IDENT_SCAN: AtomicBool = AtomicBool::new(false);
+
+/// Counts one iteration of a lexer/parser/wrapper loop.
+#[inline]
+pub fn step() {
+    STEPS.with(|s| {
+        let n = s.get() + 1;
+        s.set(n);
+        if n > STEP_LIMIT.with(Cell::get) {
+            // Disarm so that unwinding code which steps again cannot double-panic.
+            STEP_LIMIT.with(|l| l.set(u64::MAX));
+            panic!("{}", STEP_LIMIT_PANIC);
+        }
+    })
+}
+
+/// Starts observing a call on this thread: clears the counter and the log, sets the step
+/// limit (`u64::MAX` for none) and whether events are recorded.
+pub fn begin(step_limit: u64, record_events: bool) {
+    STEPS.with(|s| s.set(0));
+    STEP_LIMIT.with(|l| l.set(step_limit));
+    RECORDING.with(|r| r.set(record_events));
+    IN_REFLOW.with(|r| r.set(false));
+    EVENTS.with(|e| e.borrow_mut().clear());
+}
+
+/// Ends the observation started by [`begin`] and returns (steps, events).
+pub fn end() -> (u64, Vec<Event>) {
+    STEP_LIMIT.with(|l| l.set(u64::MAX));
+    RECORDING.with(|r| r.set(false));
+    IN_REFLOW.with(|r| r.set(false));
+    (
+        STEPS.with(Cell::get),
+        EVENTS.with(|e| std::mem::take(&mut *e.borrow_mut())),
+    )
+}
+
+pub fn steps() -> u64 {
+    STEPS.with(Cell::get)
+}
+
+pub fn emit(event: Event) {
+    if RECORDING.with(Cell::get) {
+        if let Event::Reflow { .. } = event {
+            IN_REFLOW.with(|r| r.set(true));
+        }
+        EVENTS.with(|e| e.borrow_mut().push(event));
+    }
+}
+
+pub fn child_cache_hit(parent_line_index: usize) {
+    if RECORDING.with(Cell::get) && IN_REFLOW.with(Cell::get) {
+        EVENTS.with(|e| {
+            let mut e = e.borrow_mut();
+            let event = Event::ChildCacheHitDuringReflow { parent_line_index };
+            if e.last() != Some(&event) {
+                e.push(event);
+            }
+        });
+    }
+}
+
+pub fn set_force_scalar_ident_scan(on: bool) {
+    FORCE_SCALAR_IDENT_SCAN.store(on, Ordering::Relaxed);
+}
+
+#[inline]
+pub fn force_scalar_ident_scan() -> bool {
+    FORCE_SCALAR_IDENT_SCAN.load(Ordering::Relaxed)
+}
